@@ -11,6 +11,16 @@ from fractions import Fraction
 from .vals import *
 
 
+def _isneg(t):
+    if z3.is_app(t) and t.decl().kind() == z3.Z3_OP_FPA_NEG: return True, t.arg(0)
+    return False, t
+
+
+def _neg(t):
+    n, t0 = _isneg(t)
+    return t0 if n else z3.fpNeg(t)
+
+
 class BitsDom:
     name = 'bits'
 
@@ -33,24 +43,28 @@ class BitsDom:
         return FV(w, fp=s._fold(fp))
 
     def bin(s, op, a, b):
+        """IEEE operation, normalised by exact sign identities so that the harmless rewrites clang applies to the scalar
+        reference (x-y -> x+(-y), (-x)*y -> -(x*y), (-x)/y -> -(x/y), operand order of + and *) give identical terms.
+        The identities are re-proved by the solver for binary16 in lemmas.py (NaN payloads aside)."""
         x, y = a.asfp(), b.asfp()
-        if op == 'fadd': r = z3.fpAdd(RNE, x, y)
-        elif op == 'fsub': r = z3.fpSub(RNE, x, y)
-        elif op == 'fmul': r = z3.fpMul(RNE, x, y)
-        elif op == 'fdiv': r = z3.fpDiv(RNE, x, y)
+        if op == 'fsub': op = 'fadd'; y = _neg(y)
+        if op == 'fadd':
+            if x.get_id() > y.get_id(): x, y = y, x
+            r = z3.fpAdd(RNE, x, y)
+        elif op in ('fmul', 'fdiv'):
+            nx, x0 = _isneg(x); ny, y0 = _isneg(y)
+            if op == 'fmul':
+                if x0.get_id() > y0.get_id(): x0, y0 = y0, x0
+                r = z3.fpMul(RNE, x0, y0)
+            else: r = z3.fpDiv(RNE, x0, y0)
+            if nx != ny: r = _neg(s._fold(r))
         elif op == 'frem': r = z3.fpRem(x, y)
         else: raise EncodingError(op)
         return s._mk(a.w, r)
 
     def fma(s, a, b, c): return s._mk(a.w, z3.fpFMA(RNE, a.asfp(), b.asfp(), c.asfp()))
-    def neg(s, a):
-        if a.bv is not None and a.fp is None:
-            return FV(a.w, bv=simp(bv(a.bv, a.w) ^ z3.BitVecVal(1 << (a.w - 1), a.w)))
-        return s._mk(a.w, z3.fpNeg(a.asfp()))
-    def abs(s, a):
-        if a.bv is not None and a.fp is None:
-            return FV(a.w, bv=simp(bv(a.bv, a.w) & z3.BitVecVal((1 << (a.w - 1)) - 1, a.w)))
-        return s._mk(a.w, z3.fpAbs(a.asfp()))
+    def neg(s, a): return s._mk(a.w, _neg(a.asfp()))
+    def abs(s, a): return s._mk(a.w, z3.fpAbs(a.asfp()))
     def sqrt(s, a): return s._mk(a.w, z3.fpSqrt(RNE, a.asfp()))
 
     def cmp(s, pred, a, b):
@@ -104,8 +118,10 @@ class BitsDom:
         return FV(w, bv=simp((bv(a.bits(), w) & z3.BitVecVal(sm - 1, w)) | (bv(b.bits(), w) & z3.BitVecVal(sm, w))))
 
     def eq(s, a, b):
-        """bit-for-bit equality formula"""
-        return bv(a.bits(), a.w) == bv(b.bits(), b.w)
+        """bit-for-bit equality for pure data movement; SMT-LIB `=` on FloatingPoint otherwise (identifies all NaNs,
+        distinguishes +0 / -0) -- NaN payload and sign are outside every claim"""
+        if a.fp is None and b.fp is None: return bv(a.bv, a.w) == bv(b.bv, b.w)
+        return a.asfp() == b.asfp()
 
     def is_const(s, a):
         return isinstance(a.bits(), int)
